@@ -37,10 +37,21 @@ type Trace struct {
 	Fails    int           `json:"fails"`
 }
 
+// noTrack: the race-detector pass - no tracker (its mutex would order the very accesses the detector looks for) and the
+// application releases every response the moment it gets it
+var noTrack = os.Getenv("VERIF_NOTRACK") == "1"
+
+func start() *track.Tracker {
+	if noTrack {
+		return track.StartOff()
+	}
+	return track.Start()
+}
+
 func history(kinds []string, poolSize uint32) Trace {
-	t := track.Start()
+	t := start()
 	defer track.Stop()
-	h := c13.RunHistory(0, kinds, poolSize, t)
+	h := c13.RunHistoryOpt(0, kinds, poolSize, t, noTrack)
 	done := true
 	for _, e := range h.Ev {
 		done = done && e.Done
@@ -52,7 +63,7 @@ func history(kinds []string, poolSize uint32) Trace {
 // GET / block-wise POST / block-wise GET / observe+cancel / ping concurrently while a sweeper calls
 // CheckExpirations on both connections.
 func stress(seed int64, poolSize uint32, rounds int) Trace {
-	t := track.Start()
+	t := start()
 	defer track.Stop()
 	tr := Trace{Mode: "stress", PoolSize: int(poolSize), Kinds: []string{}}
 	big := bytes.Repeat([]byte{5}, 90)
